@@ -74,35 +74,16 @@ def run(ctx):
 
     # ------------------------------------------------------------------ C01-scope-extend
     ctx.rule("C01-scope-extend", "the body of a user procedure runs in a child of the closure's frame")
+    # where the body frame comes from (position-independent: created in apply_scheme_procedure or handed in by the trampoline)
+    from . import frames
+    fr = frames.analyse(fb)
+    for key, detail in fr.instances:
+        ctx.inst("C01-scope-extend", key, detail)
+    ctx.inst("C01-scope-extend", "frame-provenance-case", {"case": fr.case, "created_in": sorted(fr.makers)})
+    ctx.oblige(not fr.problems)
+    for key, msg, where in fr.problems:
+        ctx.report("C01-scope-extend", key, msg, where)
     pa = Prov(asp)
-    ncs = [(b, t) for b, t in asp.calls() if callee_matches(t, "environment::LexicalScope::new_child")]
-    if len(ncs) != 1:
-        ctx.report("C01-scope-extend", "new_child", "expected one new_child in apply_scheme_procedure, found %d" % len(ncs), where_of(asp))
-    else:
-        ar = pa.arg_roots(ncs[0][1]["args"][0])
-        ctx.inst("C01-scope-extend", "apply_scheme_procedure/new_child", {"parent_arg_roots": sorted(ar)})
-        if ar != {4}:
-            ctx.report("C01-scope-extend", "parent", "the new frame's parent derives from parameters %s, expected only `closure`" % sorted(ar), where_of(asp, ncs[0][1]))
-        if ncs[0][0] in asp.loop_blocks():
-            ctx.report("C01-scope-extend", "per-call", "new_child sits in a loop", where_of(asp, ncs[0][1]))
-    def only_child(o):
-        cr = {c for _, c in pa.call_roots(o)}
-        return cr == {"environment::LexicalScope::new_child"} and not pa.arg_roots(o)
-    n_env = 0
-    for b, t in asp.calls():
-        c = callee(t) or ""
-        if c in (ee.name, ete.name):
-            n_env += 1
-            okc = only_child(t["args"][1])
-            ctx.inst("C01-scope-extend", "apply_scheme_procedure/%s@env" % c.rsplit("::", 1)[-1], {"only_new_child": okc})
-            if not okc:
-                ctx.report("C01-scope-extend", "body-env/%s" % c.rsplit("::", 1)[-1], "a body form is evaluated in an environment "
-                           "other than the fresh child frame", where_of(asp, t))
-        if c.endswith("LexicalScope::define"):
-            n_env += 1
-            if not only_child(t["args"][0]):
-                ctx.report("C01-scope-extend", "define-target", "a formal / internal definition is bound outside the fresh child "
-                           "frame", where_of(asp, t))
     for c in fb.closures_of(asp):
         for b, t in c.calls():
             if callee_matches(t, "LexicalScope::define"):
@@ -111,17 +92,7 @@ def run(ctx):
                 ctx.inst("C01-scope-extend", "%s/define" % c.name.rsplit("::", 1)[-1], {"receiver_root": root})
                 if root != 1:
                     ctx.report("C01-scope-extend", "closure-define-target", "formals are bound through %s" % root, where_of(c, t))
-    for b, i, s in asp.stmts():
-        if s["k"] == "assign" and s["rv"]["k"] == "aggregate" and s["rv"]["kind"]["k"] == "closure":
-            for o in s["rv"]["ops"]:
-                l = mir.op_local(o)
-                if l is not None and "LexicalScope" in asp.local_ty(l) and not only_child(o):
-                    ctx.report("C01-scope-extend", "closure-capture", "the binding closure captures a frame other than the "
-                               "fresh child", where_of(asp, span=s["span"]))
-    if n_env < 5:
-        ctx.report("C01-scope-extend", "floor", "expected >= 5 uses of the child frame in apply_scheme_procedure (found %d)" % n_env, where_of(asp))
-    # in apply_procedure: the closure argument is field .1 of the Procedure::User being applied
-    pp = Prov(ap)
+    # formals / definitions / expressions handed to apply_scheme_procedure come from the procedure being applied
     psw = next(iter(mir.discriminant_switches(ap, "values::Procedure")), None)
     calls = [(b, t) for b, t in ap.calls() if callee(t) == asp.name]
     if not psw or len(calls) != 1:
@@ -129,21 +100,6 @@ def run(ctx):
     else:
         P = psw[1]["local"]
         b, t = calls[0]
-        clo = t["args"][3]
-        # through Rc::clone
-        l = mir.op_local(clo)
-        ds = mir.defs_of(ap).get(l, [])
-        src = ds[0][2]["args"][0] if len(ds) == 1 and ds[0][0] == "call" and callee_matches(ds[0][2], "<std::rc::Rc as std::clone::Clone>::clone") else None
-        root, path = field_path(ap, src) if src is not None else (None, [])
-        ar = pp.arg_roots(clo)
-        ctx.inst("C01-scope-extend", "apply_procedure/closure-arg", {"root_local": root, "path": path, "arg_roots": sorted(ar), "applied": P})
-        if src is None or root != P or path[-2:] != ["User", 1]:
-            ctx.report("C01-scope-extend", "apply_procedure/closure-source", "the frame passed to apply_scheme_procedure is not "
-                       "the `.1` of the Procedure::User being applied (root %s path %s)" % (root, path), where_of(ap, t))
-        if 3 in ar:
-            ctx.report("C01-scope-extend", "apply_procedure/dynamic-scope", "the frame passed to apply_scheme_procedure derives "
-                       "from the caller's `env` (dynamic scoping)", where_of(ap, t))
-        # formals / definitions / expressions come from the same procedure
         for k, want in ((0, ["User", 0, 0]), (1, ["User", 0, 1]), (2, ["User", 0, 2])):
             r, pth = field_path(ap, _through_deref(ap, t["args"][k]))
             if r != P or pth[-3:] != want:
@@ -305,20 +261,57 @@ def run(ctx):
         tg = [targets.get(i, other) for i, _ in variants]
         if len(variants) != n:
             ctx.note("%s now has %d variants (was %d)" % (adt, len(variants), n))
-    # tail evaluator: the fallback forwards the same expression and environment to eval_expression
-    sw = next(iter(mir.discriminant_switches(ete, "ExpressionBody")), None)
-    sb, place, a, targets, other = sw
-    reg = mir.dominated_region(ete, other)
-    pt = Prov(ete)
-    fw = [(b, t) for b, t in ete.calls(reg) if callee(t) == ee.name]
-    okfw = len(fw) == 1 and pt.arg_roots(fw[0][1]["args"][0]) == {1} and pt.arg_roots(fw[0][1]["args"][1]) == {2}
-    ctx.inst("C01-dispatch", "eval_tail_expression/fallback", {"forwards": okfw, "special_cased": sorted(targets)})
-    if not okfw:
-        ctx.report("C01-dispatch", "eval_tail_expression/fallback", "forms other than calls and conditionals are not forwarded "
-                   "unchanged to eval_expression", where_of(ete))
-    if sorted(targets) != sorted([vidx["ProcedureCall"], vidx["Conditional"]]):
-        ctx.report("C01-dispatch", "eval_tail_expression/special-cases", "the tail evaluator special-cases variants %s, expected "
-                   "only ProcedureCall and Conditional" % sorted(targets), where_of(ete))
+    # tail evaluator, form by form (abstract evaluation, independent of how the function is written): a call becomes a
+    # pending tail call that carries the same operator, operands and environment; every other form except the conditional
+    # (C01-truthiness) is evaluated by eval_expression on the same expression in the same environment and that value returned
+    evars = fb.adt("parser::parser::ExpressionBody")["variants"]
+    for v in evars:
+        vn, vi = v["name"], v["i"]
+        if vn == "Conditional":
+            continue
+        fields = [Tok("field", "%s.%d" % (vn, k)) for k in range(len(v["fields"]))]
+        expr = [absint.Enum(vi, fields), absint.UNKNOWN]
+        envtok = Tok("env", "env")
+        events = []
+
+        def oracle(ff, bb, tt, env, expr=expr, events=events):
+            c = callee(tt) or ""
+            a0 = absint.operand(env, tt["args"][0]) if tt["args"] else None
+            if c in (ee.name, ete.name, epc.name, ap.name):
+                a1 = absint.operand(env, tt["args"][1]) if len(tt["args"]) > 1 else None
+                events.append((c.rsplit("::", 1)[-1], a0 is expr, a1))
+                r = absint.Enum(0, [Tok("value-of", "expr" if a0 is expr else "other")])
+                r.name = "Ok"
+                return r
+            if c.endswith("std::ops::Try>::branch"):
+                return absint.Enum(a0.variant, list(a0.fields)) if isinstance(a0, absint.Enum) else absint.UNKNOWN
+            if callee_matches(tt, "std::convert::AsRef>::as_ref", "std::ops::Deref>::deref", "std::borrow::Borrow>::borrow",
+                              "<std::rc::Rc as std::clone::Clone>::clone"):
+                return a0
+            return None
+        key = "eval_tail_expression/%s" % vn
+        try:
+            kind, b, env2 = absint.run_fragment(ete, 0, {1: expr, 2: envtok}, oracle=oracle, max_visits=6)
+            res = env2.get(0)
+        except (absint.Stuck, absint.Loop) as e:
+            ctx.oblige(False)
+            ctx.report("C01-dispatch", key, "cannot follow the tail evaluator on a %s form (%s)" % (vn, e), where_of(ete))
+            continue
+        ctx.inst("C01-dispatch", key, {"events": [[x[0], x[1]] for x in events], "result": repr(res)[:100]})
+        if vn == "ProcedureCall":
+            ok = not events and all(_contains(res, lambda x, t=t: x is t) for t in fields + [envtok])
+            ctx.oblige(ok)
+            if not ok:
+                ctx.report("C01-dispatch", key, "a call in tail position must become a pending call carrying the same operator, "
+                           "operands and environment (evaluations %s, result %s)" % ([x[0] for x in events], repr(res)[:100]), where_of(ete))
+        else:
+            ok = len(events) == 1 and events[0][0] == "eval_expression" and events[0][1] and events[0][2] is envtok and \
+                _contains(res, lambda x: isinstance(x, Tok) and x.kind == "value-of" and x.tag == "expr")
+            ctx.oblige(ok)
+            if not ok:
+                ctx.report("C01-dispatch", key, "a %s form in tail position is not evaluated by eval_expression on the same "
+                           "expression and environment with that value returned (evaluations %s, result %s)" % (
+                               vn, [(x[0], x[1]) for x in events], repr(res)[:100]), where_of(ete))
 
     # ------------------------------------------------------------------ C01-apply-spread
     ctx.rule("C01-apply-spread", "apply spreads only its last argument, through the common application path")
@@ -436,68 +429,108 @@ def _expr_source_args(f, prov, o):
     return {a for a in range(1, f.arg_count + 1) if a in reach and a in (1, 2, 3)}
 
 
+class Tok:
+    """opaque abstract value: `the value of evaluating <tag>`"""
+    def __init__(self, kind, tag):
+        self.kind, self.tag = kind, tag
+
+    def __repr__(self):
+        return "%s(%s)" % (self.kind, self.tag)
+
+
+def _contains(v, pred, depth=8):
+    if depth < 0:
+        return False
+    if pred(v):
+        return True
+    if isinstance(v, absint.Enum):
+        return any(_contains(x, pred, depth - 1) for x in v.fields)
+    if isinstance(v, (list, tuple)):
+        return any(_contains(x, pred, depth - 1) for x in v)
+    return False
+
+
 def conditional_rule(ctx, fb, f, vidx, as_boolean, eval_expression):
-    sw = next(iter(mir.discriminant_switches(f, "ExpressionBody")), None)
-    if not sw:
+    """Decision table of the conditional, by abstract evaluation of the evaluator on (if T C A) / (if T C):
+    T is evaluated exactly once and first, the branch is taken on as_boolean(value of T), exactly the selected arm is
+    evaluated and its value is what the evaluator returns; (if #f C) returns the unspecified value.  Independent of how
+    the evaluator is written (recursion, a loop over else-if chains, helpers)."""
+    if not any(True for x in mir.discriminant_switches(f, "ExpressionBody") if vidx["Conditional"] in x[3]) and \
+            not any(callee(t) == as_boolean for _, t in f.calls()):
         return 0
-    sb, place, a, targets, other = sw
-    t = targets.get(vidx["Conditional"])
-    if t is None:
-        # the owned variant matches twice; take any switch that has a Conditional target
-        for x in mir.discriminant_switches(f, "ExpressionBody"):
-            if vidx["Conditional"] in x[3] and len(x[3]) >= 1:
-                t = x[3][vidx["Conditional"]]
-        if t is None:
-            return 0
-    reg = mir.dominated_region(f, t)
     short = f.name.rsplit("::", 1)[-1]
-    p = Prov(f)
-    abs_ = [(b, tt) for b, tt in f.calls(reg) if callee(tt) == as_boolean]
-    if len(abs_) != 1:
-        ctx.report("C01-truthiness", short + "/as_boolean", "expected exactly one as_boolean in the conditional arm, found %d" % len(abs_), where_of(f))
-        return 1
-    b, tt = abs_[0]
-    # operand: value of eval_expression(test)
-    src = [(bb, t2) for bb, t2 in f.calls(reg) if callee(t2) == eval_expression and ("call", bb, eval_expression) in p.op_roots(tt["args"][0])]
-    if len(src) != 1:
-        ctx.report("C01-truthiness", short + "/test-value", "as_boolean is not applied to the value of the evaluated test", where_of(f, tt))
-        return 1
-    r, pth = field_path(f, _through_deref(f, src[0][1]["args"][0]))
-    is_test = bool(pth) and pth[-1] == 0
-    ctx.inst("C01-truthiness", short + "/test", {"component": pth[-1:] if pth else None})
-    if not is_test:
-        ctx.report("C01-truthiness", short + "/test-component", "the condition evaluates component %s of the conditional, expected "
-                   "the test (0)" % pth[-1:], where_of(f, src[0][1]))
-    # branch on the result
-    dest = tt["dest"]["local"]
-    swb = None
-    for bb in f.reachable(tt["target"]):
-        term = f.blocks[bb]["term"]
-        if term["k"] == "switch" and mir.op_local(term["discr"]) is not None:
-            dl = mir.op_local(term["discr"])
-            if dl == dest or dest in p.reach_locals(dl):
-                swb = (bb, term)
-                break
-    if not swb:
-        ctx.report("C01-truthiness", short + "/branch", "no branch on the result of as_boolean", where_of(f, tt))
-        return 1
-    bb, term = swb
-    false_t = dict((v, x) for v, x in term["targets"]).get(0)
-    true_t = term["otherwise"]
-    evals = {eval_expression, f.name}
-    for label, tgt, want in (("true", true_t, 1), ("false", false_t, 2)):
-        regb = mir.dominated_region(f, tgt)
-        comps = set()
-        for b2, t2 in f.calls(regb):
-            if callee(t2) in evals or (callee(t2) or "").endswith("eval_tail_expression") or (callee(t2) or "").endswith("eval_owned_tail_expression"):
-                r2, p2 = field_path(f, _through_deref(f, t2["args"][0]))
-                nums = [x for x in p2 if isinstance(x, int)]
-                # consequent = tuple field 1, alternative = tuple field 2 (then `Some`.0)
-                comps.add(1 if (p2 and p2[:1] == [1]) or (1 in nums[:1]) else (2 if 2 in nums[:1] or "Some" in p2 else -1))
-        ctx.inst("C01-truthiness", "%s/%s-arm" % (short, label), {"components_evaluated": sorted(comps)})
-        if comps - {want} or (want == 1 and want not in comps):
-            ctx.report("C01-truthiness", "%s/%s-arm" % (short, label), "on a %s test the evaluator runs component(s) %s of the "
-                       "conditional, expected %d" % (label, sorted(comps), want), where_of(f))
+    evaluators = {eval_expression, f.name, INTERP + "eval_tail_expression", INTERP + "eval_owned_tail_expression"}
+    SYM = vidx["Symbol"]
+
+    def marker(tag):
+        return [absint.Enum(SYM, [tag]), absint.UNKNOWN]
+
+    def tag_of(x):
+        try:
+            if isinstance(x, list) and isinstance(x[0], absint.Enum) and x[0].variant == SYM:
+                return x[0].fields[0]
+        except Exception:
+            pass
+        return None
+    for truth in (True, False):
+        for has_alt in (True, False):
+            key = "%s/test=%s,%s" % (short, "true" if truth else "false", "alternative" if has_alt else "no-alternative")
+            alt = absint.Enum(1, [marker("A")]) if has_alt else absint.Enum(0, [])
+            expr = [absint.Enum(vidx["Conditional"], [[marker("T"), marker("C"), alt]]), absint.UNKNOWN]
+            events = []
+
+            def oracle(ff, bb, tt, env):
+                c = callee(tt) or ""
+                a0 = absint.operand(env, tt["args"][0]) if tt["args"] else None
+                if c in evaluators:
+                    tg = tag_of(a0)
+                    events.append(("tail" if c != eval_expression else "eval", tg))
+                    r = absint.Enum(0, [Tok("value-of", tg)])
+                    r.name = "Ok"
+                    return r
+                if c == as_boolean:
+                    events.append(("as_boolean", a0.tag if isinstance(a0, Tok) else None))
+                    return truth if isinstance(a0, Tok) and a0.tag == "T" else absint.UNKNOWN
+                if c.endswith("std::ops::Try>::branch"):
+                    if isinstance(a0, absint.Enum):
+                        return absint.Enum(a0.variant, list(a0.fields))
+                    return absint.UNKNOWN
+                if callee_matches(tt, "std::convert::AsRef>::as_ref", "std::ops::Deref>::deref", "std::borrow::Borrow>::borrow",
+                                  "<std::rc::Rc as std::clone::Clone>::clone", "std::option::Option::as_ref", "Option<T>::as_ref",
+                                  "std::option::Option::as_deref", "Option<T>::as_deref"):
+                    return a0
+                return None
+            try:
+                kind, b, env = absint.run_fragment(f, 0, {1: expr, 2: Tok("env", "env")}, oracle=oracle, max_visits=6)
+                res = env.get(0)
+            except (absint.Stuck, absint.Loop) as e:
+                ctx.inst("C01-truthiness", key, {"events": [list(x) for x in events], "result": "stuck"})
+                ctx.oblige(False)
+                ctx.report("C01-truthiness", key, "cannot follow the conditional evaluator on (if T C%s) with a %s test (%s): the "
+                           "branch is not decided by as_boolean(value of the test)" % (" A" if has_alt else "", truth, e), where_of(f))
+                continue
+            evs = [x for x in events if x[0] in ("eval", "tail")]
+            want_arm = "C" if truth else ("A" if has_alt else None)
+            got_test = bool(evs) and evs[0] == ("eval", "T")
+            arms = [x[1] for x in evs[1:]]
+            ok_arm = arms == ([want_arm] if want_arm else [])
+            if want_arm:
+                ok_res = _contains(res, lambda v: isinstance(v, Tok) and v.tag == want_arm) and \
+                    not _contains(res, lambda v: isinstance(v, Tok) and v.tag not in (want_arm,))
+            else:
+                ok_res = _contains(res, lambda v: isinstance(v, absint.Enum) and getattr(v, "name", None) == "Void")
+            ok_bool = ("as_boolean", "T") in events
+            ctx.inst("C01-truthiness", key, {"events": [list(x) for x in events], "result": repr(res)[:120]})
+            ctx.oblige(got_test and ok_arm and ok_res and ok_bool)
+            if not (got_test and ok_bool):
+                ctx.report("C01-truthiness", key + "/test", "the test is not evaluated first, once, and judged by as_boolean "
+                           "(events %s)" % events, where_of(f))
+            elif not ok_arm:
+                ctx.report("C01-truthiness", key + "/arm", "on a %s test the evaluator runs %s of (if T C%s), expected %s" % (
+                    truth, arms or "nothing", " A" if has_alt else "", [want_arm] if want_arm else "nothing"), where_of(f))
+            elif not ok_res:
+                ctx.report("C01-truthiness", key + "/value", "the value returned for (if T C%s) with a %s test is %s, expected %s"
+                           % (" A" if has_alt else "", truth, repr(res)[:100], ("the value of " + want_arm) if want_arm else "the unspecified value"), where_of(f))
     return 1
 
 
